@@ -91,6 +91,7 @@ def route_case(ctx, case):
     calls = []              # (who, exception object, exc_info ok)
     made = {}               # handler id -> exception object it raised
     reconnected = []
+    farewell = []
     fault = {'exc': None, 'raised': False}
     drawn = CLASSES[case.get('exc', 'A')]('injected fault')
 
@@ -201,6 +202,14 @@ def route_case(ctx, case):
                     raise e
                 if h['do'] == 'reraise':
                     raise exc
+                if h['do'] == 'bye':
+                    # graceful shutdown from a handler: queue a farewell and
+                    # call the plain (flushing) disconnect()
+                    farewell.append(h['id'])
+                    for tail in 'ab':
+                        conn.write_packet(sb.play.ChatPacket(
+                            message='bye%d%s' % (h['id'], tail)))
+                    conn.disconnect()
                 if h['do'] in ('reconnect', 'reconnect_direct') and \
                         not reconnected:
                     reconnected.append(h['id'])
@@ -383,6 +392,21 @@ def route_case(ctx, case):
             ctx.fail('route', 'X3-reconnected-session-disturbed', case,
                      (srvs[1].replies, srvs[1].errors[:2]),
                      [('keep_alive', 12)])
+    # a handler's farewell, queued before its non-immediate disconnect(),
+    # reaches the server before the connection closes
+    if farewell:
+        chat_id = servers.packet_info(version, 'sb_chat')[0]
+        try:
+            got_bye = [servers.decode(version, 'sb_chat', pl)['message']
+                       for pid, pl in srvs[0].other_play_frames
+                       if pid == chat_id]
+        except Exception as e:
+            got_bye = ['undecodable: %r' % (e,)]
+        want_bye = ['bye%d%s' % (farewell[0], t) for t in 'ab']
+        if got_bye != want_bye or srvs[0].errors:
+            ctx.fail('route', 'X3-farewell-before-disconnect-not-sent', case,
+                     (got_bye, srvs[0].errors[:2]), want_bye)
+        ctx.label('handler_farewell_then_disconnect')
     # X4
     should_raise = final == 'none' and not caught
     raised_out = [c for c in hook_calls]
@@ -419,7 +443,7 @@ def handler_strategy():
         'filter': st.sampled_from(FILTERS).map(list),
         'early': st.booleans(),
         'do': st.sampled_from(['return', 'raise', 'raise', 'reraise',
-                               'reconnect', 'reconnect_direct']),
+                               'reconnect', 'reconnect_direct', 'bye']),
         'new': st.sampled_from(sorted(CLASSES))})
 
 
@@ -442,6 +466,10 @@ def fix_case(c):
         c = dict(c, exc='A')        # write-phase IOError is deferred
     if c['origin'] in ('reaction_status_json', 'hook_raises'):
         c = dict(c, compress=None)
+    if c['origin'] not in ('listener', 'early_listener') or c.get('reset'):
+        # a farewell needs a live play-state session to be sent on
+        c = dict(c, chain=[dict(h, do='return') if h['do'] == 'bye' else h
+                           for h in c['chain']])
     if c['origin'] == 'hook_raises':
         # after the refused fallback there is nothing to reconnect to in
         # the same breath: keep handlers to return/raise/reraise
@@ -488,7 +516,9 @@ def t_origins(ctx):
                           [{'filter': [], 'early': False,
                             'do': 'reconnect'}],
                           [{'filter': [], 'early': False,
-                            'do': 'reconnect_direct'}]):
+                            'do': 'reconnect_direct'}],
+                          [{'filter': ['C'], 'early': False, 'do': 'return'},
+                           {'filter': [], 'early': False, 'do': 'bye'}]):
                 for comp in (None, 256):
                     route_case(ctx, fix_case({
                         'origin': origin, 'exc': 'B', 'chain': chain,
@@ -505,7 +535,7 @@ def t_origins(ctx):
                         'origin': origin, 'exc': 'B', 'chain': chain,
                         'final': final, 'final_new': 'EOFError',
                         'compress': None, 'version': 757, 'reset': True}))
-    ctx.exhaustive_done('9 origins x 4 finals x 5 chains x 2 compression '
+    ctx.exhaustive_done('9 origins x 4 finals x 6 chains x 2 compression '
                         'modes')
 
 
